@@ -436,6 +436,41 @@ class WordDomain(RingDomain):
         ses.send("(pop)")
         return r == "unsat"
 
+    def find_model(self, nonzero, inputs, timeout=60):
+        """integer model of the recorded facts and path constraints in which the polynomial `nonzero` does not vanish (a candidate failing
+        input for native replay); only attempted when everything is linear.  Returns {input symbol: value} or None."""
+        import groupdom
+        polys = [f for (f, lo, hi) in self.facts] + [d for d, o in self.constraints] + [nonzero]
+        if any(p.degree() > 1 for p in polys):
+            return None
+        mons = {}
+        rel = {"<": "(< %s 0)", ">": "(> %s 0)", "<=": "(<= %s 0)", ">=": "(>= %s 0)", "==": "(= %s 0)", "!=": "(not (= %s 0))"}
+        body = []
+        for (f, lo, hi) in self.facts:
+            t = self._lin(f, mons)
+            body.append("(assert (and (<= %d %s) (<= %s %d)))" % (lo, t, t, hi))
+        for d, o in self.constraints:
+            body.append("(assert %s)" % (rel[o] % self._lin(d, mons)))
+        body.append("(assert (not (= %s 0)))" % self._lin(nonzero, mons))
+        for v in inputs:
+            mons.setdefault(v, self.ranges.get(v, (1 << 64) - 1))
+        decl = []
+        for v, hi in sorted(mons.items()):
+            decl.append("(declare-const |%s| Int)" % v)
+            decl.append("(assert (and (<= 0 |%s|) (<= |%s| %d)))" % (v, v, hi))
+        txt = "(set-option :timeout %d)\n" % (timeout * 1000) + "\n".join(decl + body) + "\n(check-sat)\n(get-model)\n"
+        res = groupdom._z3_run(txt, timeout)
+        if res[0] != "sat":
+            return None
+        model = res[1]
+        out = {}
+        for v in inputs:
+            if v in model:
+                out[v] = model[v]
+            else:
+                return None
+        return out
+
     def reset_facts(self):
         """forget every recorded range fact (abstraction point: weaker hypothesis from here on); path constraints are kept"""
         self.facts, self.pinned = [], []
